@@ -495,14 +495,13 @@ Qed.
                   [VInt c; VInt nb; d_brokers acc; VUnbound; b4; b5; b6; VUnbound; VUnbound; VUnbound; VUnbound; VUnbound; VUnbound; VUnbound;
                    VUnbound; VUnbound; VUnbound; VUnbound; VUnbound; VUnbound; VUnbound])
                (VUnbound, VUnbound, VUnbound).
-    { intros [[b4 b5] b6] acc d. unfold read_broker. unreaders. dsl.
+    { intros [[b4 b5] b6] acc d. unfold read_broker, d_brokers. unreaders. dsl.
       destruct (unpack Fi d) as [[node d1]|e]; dsl; [|exists (b4, b5, b6); reflexivity].
       destruct (read_short_ascii d1) as [[host d2]|e]; dsl; [|exists (b4, b5, b6); reflexivity].
       destruct (unpack Fi d2) as [[port d3]|e]; dsl; [|exists (b4, b5, b6); reflexivity].
-      exists (VInt node, VText host, VInt port). unfold d_brokers at 1.
-      change (VStruct K_BrokerMetadata [VInt node; VText host; VInt port]) with (v_broker (mk_broker_metadata node host port)).
-      change (VInt node) with (VInt (bm_node (mk_broker_metadata node host port))) at 1.
-      now rewrite d_brokers_snoc. }
+      exists (VInt node, VText host, VInt port).
+      pose proof (d_brokers_snoc acc (mk_broker_metadata node host port)) as S. unfold d_brokers in S.
+      unfold v_broker in S. cbn [bm_node bm_host bm_port] in S. now rewrite S. }
     destruct ts' as [[b4 b5] b6]. unfold read_n at 1, loop.
     destruct (for_range (one read_broker) (S (length r2)) nb r2) as [bs [r3|e]]; dsl; [|reflexivity].
     destruct (unpack Fi r3) as [[nt r4]|e]; dsl; [|reflexivity].
@@ -523,7 +522,7 @@ Qed.
                     [VInt c; VInt nb; d_brokers bs; VUnbound; b4; b5; b6; VInt nt; d_topics acc; VInt terr; VText name; VInt np; d_parts pacc;
                      VUnbound; p14; p15; p16; p17; p18; p19; p20])
                  (t14, t15, t16, t17, t18, t19, t20).
-      { intros [[[[[[p14 p15] p16] p17] p18] p19] p20] pacc d'. unfold read_partition_metadata. unreaders. dsl.
+      { intros [[[[[[p14 p15] p16] p17] p18] p19] p20] pacc d'. unfold read_partition_metadata, d_parts. unreaders. dsl.
         destruct (unpack Fh d') as [[perr q1]|e]; dsl; [|exists (p14, p15, p16, p17, p18, p19, p20); reflexivity].
         destruct (unpack Fi q1) as [[pid q2]|e]; dsl; [|exists (p14, p15, p16, p17, p18, p19, p20); reflexivity].
         destruct (unpack Fi q2) as [[leader q3]|e]; dsl; [|exists (p14, p15, p16, p17, p18, p19, p20); reflexivity].
@@ -531,18 +530,14 @@ Qed.
         destruct (read_ints nrep q4) as [[reps q5]|e]; dsl; [|exists (p14, p15, p16, p17, p18, p19, p20); reflexivity].
         destruct (unpack Fi q5) as [[nisr q6]|e]; dsl; [|exists (p14, p15, p16, p17, p18, p19, p20); reflexivity].
         destruct (read_ints nisr q6) as [[isr q7]|e]; dsl; [|exists (p14, p15, p16, p17, p18, p19, p20); reflexivity].
-        exists (VInt perr, VInt pid, VInt leader, VInt nrep, v_ints reps, VInt nisr, v_ints isr). unfold d_parts at 1.
-        change (VStruct K_PartitionMetadata [VText name; VInt pid; VInt perr; VInt leader; VTuple (map VInt reps); VTuple (map VInt isr)])
-          with (v_partition (mk_partition_metadata name pid perr leader reps isr)).
-        change (VInt pid) with (VInt (pm_partition (mk_partition_metadata name pid perr leader reps isr))) at 1.
-        now rewrite d_parts_snoc. }
+        exists (VInt perr, VInt pid, VInt leader, VInt nrep, v_ints reps, VInt nisr, v_ints isr).
+        pose proof (d_parts_snoc pacc (mk_partition_metadata name pid perr leader reps isr)) as S. unfold d_parts in S.
+        unfold v_partition in S. cbn [pm_topic pm_partition pm_error pm_leader pm_replicas pm_isr] in S. unfold v_ints in *. now rewrite S. }
       destruct ts' as [[[[[[p14 p15] p16] p17] p18] p19] p20]. unfold read_n, loop.
-      destruct (for_range (one (read_partition_metadata name)) (S (length d3)) np d3) as [pms [d4|e]]; dsl.
-      - exists (VInt terr, VText name, VInt np, d_parts pms, p14, p15, p16, p17, p18, p19, p20). unfold d_topics at 1.
-        change (VStruct K_TopicMetadata [VText name; VInt terr; d_parts pms])
-          with (v_topic (mk_topic_metadata name terr (dict_of Z.eqb (map (fun pm => (pm_partition pm, pm)) pms)))).
-        change (VText name) with (VText (tm_topic (mk_topic_metadata name terr (dict_of Z.eqb (map (fun pm => (pm_partition pm, pm)) pms))))) at 1.
-        now rewrite d_topics_snoc.
+      destruct (for_range (one (read_partition_metadata name)) (S (length d3)) np d3) as [pms [d4|e]]; unfold d_topics, d_parts; dsl.
+      - exists (VInt terr, VText name, VInt np, d_parts pms, p14, p15, p16, p17, p18, p19, p20).
+        pose proof (d_topics_snoc acc (mk_topic_metadata name terr (dict_of Z.eqb (map (fun pm => (pm_partition pm, pm)) pms)))) as S.
+        unfold d_topics in S. unfold v_topic in S. cbn [tm_topic tm_error tm_partitions] in S. unfold d_parts, kv_part in *. now rewrite S.
       - exists (t9, t10, t11, t12, t14, t15, t16, t17, t18, t19, t20). reflexivity. }
     destruct ts' as [[[[[[[[[[t9 t10] t11] t12] t14] t15] t16] t17] t18] t19] t20]. unfold read_n, loop.
     destruct (for_range (one read_topic_metadata) (S (length r4)) nt r4) as [tms [r5|e]]; dsl; reflexivity.
